@@ -81,6 +81,58 @@ namespace World
 @[simp] theorem graphs_length_setGr (w : World) (g : Nat) (x : GraphS) :
     (w.setGr g x).graphs.length = max w.graphs.length (g + 1) := by simp [setGr, lset_length]
 
+@[simp] theorem val_bump (w : World) (v : Nat) : (bump w).val v = w.val v := rfl
+@[simp] theorem node_bump (w : World) (n : Nat) : (bump w).node n = w.node n := rfl
+@[simp] theorem gr_bump (w : World) (g : Nat) : (bump w).gr g = w.gr g := rfl
+@[simp] theorem vals_bump (w : World) : (bump w).vals = w.vals := rfl
+@[simp] theorem nodes_bump (w : World) : (bump w).nodes = w.nodes := rfl
+@[simp] theorem graphs_bump (w : World) : (bump w).graphs = w.graphs := rfl
+@[simp] theorem late_bump (w : World) : (bump w).late = w.late + 1 := rfl
+@[simp] theorem late_setVal (w : World) (v : Nat) (x : ValueS) : (w.setVal v x).late = w.late := rfl
+@[simp] theorem late_setNode (w : World) (n : Nat) (x : NodeS) : (w.setNode n x).late = w.late := rfl
+@[simp] theorem late_setGr (w : World) (g : Nat) (x : GraphS) : (w.setGr g x).late = w.late := rfl
+
+@[simp] theorem locked_setVal (w : World) (v : Nat) (x : ValueS) : (w.setVal v x).locked = w.locked := rfl
+@[simp] theorem locked_setNode (w : World) (n : Nat) (x : NodeS) : (w.setNode n x).locked = w.locked := rfl
+@[simp] theorem locked_setGr (w : World) (g : Nat) (x : GraphS) : (w.setGr g x).locked = w.locked := rfl
+@[simp] theorem locked_bump (w : World) : (bump w).locked = w.locked := rfl
+@[simp] theorem val_noteName (w : World) (g : Nat) (s : Option String) (v : Nat) : (noteName w g s).val v = w.val v := by
+  unfold noteName; split <;> rfl
+@[simp] theorem node_noteName (w : World) (g : Nat) (s : Option String) (n : Nat) : (noteName w g s).node n = w.node n := by
+  unfold noteName; split <;> rfl
+@[simp] theorem gr_noteName (w : World) (g : Nat) (s : Option String) (h : Nat) : (noteName w g s).gr h = w.gr h := by
+  unfold noteName; split <;> rfl
+@[simp] theorem late_noteName (w : World) (g : Nat) (s : Option String) : (noteName w g s).late = w.late := by
+  unfold noteName; split <;> rfl
+@[simp] theorem locked_noteName (w : World) (g : Nat) (s : Option String) : (noteName w g s).locked = w.locked := by
+  unfold noteName; split <;> rfl
+@[simp] theorem vals_noteName (w : World) (g : Nat) (s : Option String) : (noteName w g s).vals = w.vals := by
+  unfold noteName; split <;> rfl
+@[simp] theorem nodes_noteName (w : World) (g : Nat) (s : Option String) : (noteName w g s).nodes = w.nodes := by
+  unfold noteName; split <;> rfl
+@[simp] theorem graphs_noteName (w : World) (g : Nat) (s : Option String) : (noteName w g s).graphs = w.graphs := by
+  unfold noteName; split <;> rfl
+@[simp] theorem tensors_noteName (w : World) (g : Nat) (s : Option String) : (noteName w g s).tensors = w.tensors := by
+  unfold noteName; split <;> rfl
+@[simp] theorem val_noteOwner (w : World) (u : Nat) (s : Option String) (v : Nat) : (noteOwner w u s).val v = w.val v := by
+  unfold noteOwner; split <;> simp
+@[simp] theorem node_noteOwner (w : World) (u : Nat) (s : Option String) (n : Nat) : (noteOwner w u s).node n = w.node n := by
+  unfold noteOwner; split <;> simp
+@[simp] theorem gr_noteOwner (w : World) (u : Nat) (s : Option String) (h : Nat) : (noteOwner w u s).gr h = w.gr h := by
+  unfold noteOwner; split <;> simp
+@[simp] theorem late_noteOwner (w : World) (u : Nat) (s : Option String) : (noteOwner w u s).late = w.late := by
+  unfold noteOwner; split <;> simp
+@[simp] theorem locked_noteOwner (w : World) (u : Nat) (s : Option String) : (noteOwner w u s).locked = w.locked := by
+  unfold noteOwner; split <;> simp
+@[simp] theorem vals_noteOwner (w : World) (u : Nat) (s : Option String) : (noteOwner w u s).vals = w.vals := by
+  unfold noteOwner; split <;> simp
+@[simp] theorem nodes_noteOwner (w : World) (u : Nat) (s : Option String) : (noteOwner w u s).nodes = w.nodes := by
+  unfold noteOwner; split <;> simp
+@[simp] theorem graphs_noteOwner (w : World) (u : Nat) (s : Option String) : (noteOwner w u s).graphs = w.graphs := by
+  unfold noteOwner; split <;> simp
+@[simp] theorem tensors_noteOwner (w : World) (u : Nat) (s : Option String) : (noteOwner w u s).tensors = w.tensors := by
+  unfold noteOwner; split <;> simp
+
 theorem val_fresh (w : World) (v : Nat) (h : w.vals.length ≤ v) : w.val v = {} := lget_of_le _ _ h
 theorem node_fresh (w : World) (n : Nat) (h : w.nodes.length ≤ n) : w.node n = {} := lget_of_le _ _ h
 theorem gr_fresh (w : World) (g : Nat) (h : w.graphs.length ≤ g) : w.gr g = {} := lget_of_le _ _ h
@@ -129,5 +181,14 @@ structure I_key (w : World) : Prop where
 structure I_node (w : World) : Prop where
   mem : ∀ n g, (w.node n).graph = some g ↔ n ∈ (w.gr g).nodes
   nodup : ∀ g, (w.gr g).nodes.Nodup
+
+
+theorem I_use_bump {w : World} (h : I_use w) : I_use (bump w) := h
+theorem I_prod_bump {w : World} (h : I_prod w) : I_prod (bump w) := h
+theorem I_root_bump {w : World} (h : I_root w) : I_root (bump w) := h
+theorem I_own_bump {w : World} (h : I_own w) : I_own (bump w) :=
+  ⟨h.cnt, h.io_mem, h.io_flag, h.init_mem, h.init_flag, h.graph_owned⟩
+theorem I_key_bump {w : World} (h : I_key w) : I_key (bump w) := ⟨h.name, h.keys⟩
+theorem I_node_bump {w : World} (h : I_node w) : I_node (bump w) := ⟨h.mem, h.nodup⟩
 
 end IrVerif.Kernel
